@@ -559,7 +559,9 @@ class Sim:
             self.effects_seen.add("join")
             return [(c, "S" if f else l, False)]
         if cn.endswith("Option::take") and args and self_field_of(args[0], "control"):
-            return [("N", l, f)]
+            # the handle is None from here on; "T" remembers that the value taken out was Some (tested by `let Some(h) = .. else`)
+            self.effects_seen.add("control=None")
+            return [("T" if c in ("S", "T") else "N", l, f)]
         # helper receiving &mut Uci: inline
         cb = self.fx.body(callee_name(t)) if callee_name(t) else None
         if cb is not None and depth < 4 and any(deep_strip(a) == ("arg", 1, "self") for a in args) and cb.locals[1]["ty"].endswith("engine::uci::Uci"):
@@ -598,18 +600,21 @@ class Sim:
                     sel = cur
                     og = option_guard(e, pol)
                     if og is not None and mentions_self_field(og[0], "control"):
-                        want = "S" if og[1] else "N"
-                        sel = {st for st in cur if st[0] == want}
+                        if find_calls(og[0], "Option::take"):
+                            # a test of the value taken out of the handle
+                            sel = {st for st in cur if (st[0] == "T") == bool(og[1])}
+                        else:
+                            sel = {st for st in cur if (st[0] == "S") == bool(og[1])}
                     succs.append((tg, sel))
             elif t["k"] == "return":
-                out |= cur
+                out |= {("N" if c0 == "T" else c0, l0, f0) for (c0, l0, f0) in cur}
             else:
                 succs = [(x, cur) for x in body.succ(bb)]
             for tg, sts in succs:
                 if not sts:
                     continue
                 if region is not None and tg not in region:
-                    out |= sts
+                    out |= {("N" if c0 == "T" else c0, l0, f0) for (c0, l0, f0) in sts}
                     continue
                 old = at.get(tg, set())
                 if not sts <= old:
@@ -875,6 +880,10 @@ def rule_noblock(fx, rep, ex, arms, names=("IsReady", "Quit", "Position", "Debug
 
 U = "src/engine/uci/mod.rs"
 MUTANTS = [
+    {"name": "stop written with take(): waits on the latch even when no handle was installed", "expect": "C05-TS/wait",
+     "edits": [("src/engine/uci/mod.rs", "                if let Some(c) = self.control.as_mut() {\n                    c.stop();\n                    self.is_stopped.wait();\n                }\n\n                self.control = None;", "                if let Some(c) = self.control.take() {\n                    c.stop();\n                }\n                self.is_stopped.wait();")]},
+    {"name": "benign: stop written with take() and let-else", "benign": True,
+     "edits": [("src/engine/uci/mod.rs", "                if let Some(c) = self.control.as_mut() {\n                    c.stop();\n                    self.is_stopped.wait();\n                }\n\n                self.control = None;", "                let Some(running_search) = self.control.take() else {\n                    return Ok(ExecuteResult::KeepGoing);\n                };\n                running_search.stop();\n                self.is_stopped.wait();")]},
     {"name": "polls of the first iteration answer false without reading the flag (seed C09-5a)", "expect": "C05-STOPFLAG/poll",
      "edits": [("src/engine/search/time_control.rs", "    next_check_at: u64,\n", "    next_check_at: u64,\n    current_depth: u8,\n"),
                ("src/engine/search/time_control.rs", "            next_check_at: params::CHECK_TERMINATION_NODE_FREQUENCY,\n", "            next_check_at: params::CHECK_TERMINATION_NODE_FREQUENCY,\n            current_depth: 1,\n"),
